@@ -22,10 +22,14 @@
 (*   subbal   the subquery's own scan consults balance in every row        *)
 (*   agg      aggregate query: one output row, sum(position) of selection  *)
 (*                                                                         *)
-(* CacheMode  "process-wide one entry"  as shipped: functools.lru_cache(1) *)
-(*                  at module level, keyed by the row context object and   *)
-(*                  its rowid                                              *)
-(*            "per row context"         property-conforming                *)
+(* CacheMode  "per row context"         property-conforming; what the code *)
+(*                  does since fix 678e809 (the row context remembers the  *)
+(*                  rowid its balance has been updated for)                *)
+(*            "process-wide one entry"  as shipped BEFORE that fix:        *)
+(*                  functools.lru_cache(1) at module level, keyed by the   *)
+(*                  row context object and its rowid.  Kept as the         *)
+(*                  non-vacuity run (TLC must reject it) and to recognise  *)
+(*                  a re-introduction of the defect                        *)
 (*            "none"                    no memo at all (a realistic edit)  *)
 (* Split      TRUE: an evaluation of the column is three steps (lookup,    *)
 (*            compute, store), as the C cache wrapper really interleaves   *)
